@@ -175,7 +175,7 @@ func (st *State) callFn(caller *frame, pos token.Pos, fn *ssa.Function, args []V
 		return st.external(caller, fn, args)
 	}
 	st.depth++
-	if st.depth > st.eng.Cfg.MaxDepth {
+	if st.depth > st.cfg.MaxDepth {
 		st.end("unwind", "call depth bound exceeded in "+fn.String())
 	}
 	defer func() { st.depth-- }()
@@ -233,7 +233,7 @@ func (fr *frame) run() {
 			fr.visits[b.Index]++
 			lim := st.unwind
 			if lim == 0 {
-				lim = st.eng.Cfg.MaxBlockVisits
+				lim = st.cfg.MaxBlockVisits
 			}
 			if fr.visits[b.Index] > lim {
 				st.end("unwind", fmt.Sprintf("loop bound %d exceeded in %s block %d (%s)", lim, fr.fn, b.Index, st.eng.Prog.Fset.Position(firstPos(b))))
@@ -241,8 +241,8 @@ func (fr *frame) run() {
 		}
 		st.fnCount[fr.fn] += int64(len(b.Instrs))
 		st.steps += int64(len(b.Instrs))
-		if st.steps > st.eng.Cfg.MaxSteps {
-			st.end("unwind", fmt.Sprintf("step budget %d exceeded in %s", st.eng.Cfg.MaxSteps, fr.fn))
+		if st.steps > st.cfg.MaxSteps {
+			st.end("unwind", fmt.Sprintf("step budget %d exceeded in %s", st.cfg.MaxSteps, fr.fn))
 		}
 	instrs:
 		for _, in := range b.Instrs {
@@ -582,7 +582,7 @@ func (st *State) indexAddr(x Value, idx *Term, xt types.Type) Value {
 		return &elems[idx.Int()]
 	}
 	// Symbolic in-range index: a guarded pointer over the feasible cells.
-	if len(elems) <= st.eng.Cfg.MaxSymIndex {
+	if len(elems) <= st.cfg.MaxSymIndex {
 		gv := &GV{}
 		for i := range elems {
 			g := Cmp(OpEq, idx, Const(idx.W, uint64(i)))
